@@ -919,7 +919,7 @@ string<A> bloom_filter_alloc<A>::to_string(bool print_filter) const {
   }
 
   oss << std::endl;
-  return string<A>(oss.str(), allocator_);
+  return string<A>(oss.str().c_str(), allocator_);
 }
 
 
